@@ -149,62 +149,98 @@ end fastThms
 section wiringThms
 variable {K : Type} [Field K] [LinearOrder K] {m : Nat}
 
-/-- C12 (mode takes effect, generic loss, fresh object): after `set_from_standard_qtomography_option_data`
-the weight matrices in force are the mode's: none for `identity`, the option's for `custom`, the computed
-inverse-covariance matrices otherwise. -/
-theorem generic_mode_takes_effect (opt : Opt K m) (G : List (Mat K (m - 1) (m - 1))) (st : GenWse K m)
-    (h : configureGen ⟨none⟩ opt G = .ok st) :
-    (opt.mode = .identity → st.weightMatrices = none) ∧
-    (opt.mode = .custom → st.weightMatrices = opt.weights) ∧
-    ((opt.mode = .invSample ∨ opt.mode = .invUnbiased) →
-      ∃ ws, invCovWeights G = .ok ws ∧ st.weightMatrices = some ws) := by
+/-- the weight matrices a mode stands for, given the ones in force before (`identity` is `pass` in the code, so
+it keeps what is there: none on a fresh object — see `identity_after_custom_fails` for re-used objects) -/
+def modeWeights (opt : Opt K m) (G : List (Mat K (m - 1) (m - 1))) (before : Option (List (Mat K m m))) :
+    Option (List (Mat K m m)) :=
+  match opt.mode with
+  | .identity => before
+  | .custom => opt.weights
+  | .invSample | .invUnbiased => some (G.map invCovWeight)
+
+/-- the matrices the mode's setter is handed (none for `identity`, which calls no setter) -/
+def handed (opt : Opt K m) (G : List (Mat K (m - 1) (m - 1))) : Option (Option (List (Mat K m m))) :=
+  weightsByMode opt G
+
+/-- C12 (configuration succeeds exactly when the setter's symmetry validation passes): `identity` always
+succeeds; `custom` / covariance modes succeed iff every matrix handed to `set_weight_matrices` is symmetric
+within `atol` (numpy's float inverse need not be — open finding D9e). -/
+theorem configure_ok_iff (atol : K) (st : GenWse K m) (opt : Opt K m) (G : List (Mat K (m - 1) (m - 1))) :
+    (∃ st', configureGen atol st opt G = .ok st') ↔
+      (∀ w, weightsByMode opt G = some w → validWs atol w = true) := by
+  unfold configureGen
+  cases hw : weightsByMode opt G with
+  | none => simp
+  | some w =>
+    by_cases hv : validWs atol w = true
+    · simp [hv]
+    · simp [hv]
+
+/-- C12 (mode takes effect, generic loss): whenever `set_from_standard_qtomography_option_data` succeeds, the
+weight matrices in force are the mode's, from any earlier state: the option's for `custom`, the
+inverse-covariance matrices for the covariance modes (any number of outcomes), unchanged (none on a fresh
+object) for `identity`. -/
+theorem generic_mode_takes_effect (atol : K) (st st' : GenWse K m) (opt : Opt K m)
+    (G : List (Mat K (m - 1) (m - 1))) (h : configureGen atol st opt G = .ok st') :
+    st'.weightMatrices = modeWeights opt G st.weightMatrices := by
   unfold configureGen weightsByMode at h
-  cases hm : opt.mode <;> simp only [hm, bind, Except.bind] at h
-  · injection h with h; subst h; simp
-  · injection h with h; subst h; simp
+  unfold modeWeights
+  cases hm : opt.mode <;> simp only [hm] at h ⊢
+  · injection h with h; subst h; rfl
   all_goals
-    cases hi : invCovWeights G with
-    | error e => simp [hi] at h
-    | ok ws =>
-      simp only [hi] at h
-      injection h with h; subst h
-      simp
+    split at h
+    · injection h with h; subst h; rfl
+    · cases h
 
-/-- C12 (fast loss, same options twice): the cached block matrix equals the mode's weights only from the
-second identical configuration on — proved part of `mode takes effect` for the fast squared error (partial:
-the first configuration of a fresh object is the negation witness `fast_mode_takes_effect_fails`). -/
-theorem fast_mode_takes_effect_partial (W : List (Mat K m m)) (grad : Bool) (st1 st2 : FastWse K m)
-    (h1 : configureFast ⟨none, none⟩ (mkOpt .custom (some W)) grad [] = .ok st1)
-    (h2 : configureFast st1 (mkOpt .custom (some W)) grad [] = .ok st2) :
-    st1.extW = none ∧ st2.weightMatrices = some W ∧ st2.extW.map (·.blocks) = some W := by
-  simp only [configureFast, calcExt, mkOpt, weightsByMode, bind, Except.bind] at h1
-  have e1 : st1 = ⟨some W, none⟩ := by
-    cases grad <;> simp at h1 <;> exact h1.symm
-  subst e1
-  simp only [configureFast, calcExt, mkOpt, weightsByMode, bind, Except.bind] at h2
-  have e2 : st2 = ⟨some W, some ⟨W⟩⟩ := by
-    cases grad <;> simp at h2 <;> exact h2.symm
-  subst e2
-  simp
+/-- C12 (mode takes effect, fast loss): whenever configuration succeeds — from any earlier state, fresh or
+re-used, gradient required or not — the weight matrices in force are the same as for the generic loss, and
+the cached block matrix `_extend_weight_matrix` is built from exactly these matrices (none when there are
+none); so by `fast_eq_generic_value/grad` the fast value and gradient are the generic ones in every mode. -/
+theorem fast_mode_takes_effect (atol : K) (st st' : FastWse K m) (opt : Opt K m) (grad : Bool)
+    (G : List (Mat K (m - 1) (m - 1))) (h : configureFast atol st opt grad G = .ok st') :
+    st'.weightMatrices = modeWeights opt G st.weightMatrices ∧
+    st'.extW.map (·.blocks) = st'.weightMatrices := by
+  unfold configureFast weightsByMode at h
+  unfold modeWeights
+  cases hm : opt.mode <;> simp only [hm] at h ⊢
+  · injection h with h; subst h
+    cases grad <;> cases hw : st.weightMatrices <;> simp [calcExt, hw]
+  all_goals
+    split at h
+    · injection h with h; subst h
+      first
+        | (cases ho : opt.weights <;> cases grad <;> cases hw : st.weightMatrices <;>
+            simp [setWeightsFast, calcExt, hw, invCovWeights])
+    · cases h
 
-/-- C12 (inverse-covariance modes, any outcome count other than 2): the slice assignment of the code is a
-numpy broadcast error for every input, so these modes cannot take effect for 3, 4, 5… outcomes. -/
-theorem inv_cov_breaks_beyond_two (hm : m ≠ 2) (G : Mat K (m - 1) (m - 1)) :
-    invCovWeight G = .error .broadcast := by
+/-- C12 (inverse-covariance modes, every outcome count): the weight matrix is numpy's inverse of the reduced
+covariance in the leading `(m−1)×(m−1)` block and zero in the last row and column. -/
+theorem inv_cov_weight_entries (G : Mat K (m - 1) (m - 1)) (i j : Fin m) :
+    (invCovWeight G).get i j =
+      if h : i.val < m - 1 ∧ j.val < m - 1 then G.get ⟨i.val, h.1⟩ ⟨j.val, h.2⟩ else 0 := by
   unfold invCovWeight
-  rw [dif_neg hm]
+  split
+  · rename_i hm
+    subst hm
+    simp only [Mat.get_ofFn]
+    by_cases h : i.val = 0 ∧ j.val = 0
+    · rw [dif_pos h, dif_pos (by omega)]
+      congr 1 <;> apply Fin.ext <;> simp [h.1, h.2]
+    · rw [dif_neg h, dif_neg (by omega)]
+  · simp only [Mat.get_ofFn]
 
-/-- C12 (inverse-covariance modes, 2 outcomes): the weight matrix is `[[inv, 0], [0, 0]]`. -/
-theorem inv_cov_two (G : Mat K (2 - 1) (2 - 1)) :
-    ∃ W : Mat K 2 2, invCovWeight G = .ok W ∧ W.get 0 0 = G.get ⟨0, by omega⟩ ⟨0, by omega⟩ ∧
-      W.get 0 1 = 0 ∧ W.get 1 0 = 0 ∧ W.get 1 1 = 0 := by
-  refine ⟨_, by unfold invCovWeight; rw [dif_pos rfl], ?_, ?_, ?_, ?_⟩ <;> simp
+/-- C12 (relative entropy, `custom` mode takes effect): the option's weights become the loss's `weights`, and
+the fast variant's `_extend_weights` is rebuilt from them (each weight repeated once per outcome). -/
+theorem wre_option_weights_installed (st : WreState K) (w : List K) (lens : List Nat) (fast grad : Bool) :
+    (configureWre st (some w) lens fast grad).weights = some w ∧
+    (fast = true → (configureWre st (some w) lens fast grad).extWeights
+        = some ((w.zip lens).flatMap fun (a, n) => List.replicate n a)) := by
+  unfold configureWre calcExtWeights
+  cases fast <;> cases grad <;> cases hw : st.weights <;> simp [hw]
 
-/-- C12 (relative entropy, option weights): whatever the option carries, configuration leaves `weights` as
-the constructor set them — the hook the base class calls is not the one the class defines. This is the
-model's statement of the defect `custom` mode never takes effect for `WeightedRelativeEntropy`. -/
-theorem wre_option_weights_never_installed (st : WreState K) (optW : Option (List K)) (lens : List Nat)
-    (fast grad : Bool) : (configureWre st optW lens fast grad).weights = st.weights := by
+/-- `identity` mode leaves the relative-entropy weights as the constructor set them. -/
+theorem wre_identity_keeps_weights (st : WreState K) (lens : List Nat) (fast grad : Bool) :
+    (configureWre st none lens fast grad).weights = st.weights := by
   unfold configureWre calcExtWeights
   cases fast <;> cases grad <;> cases hw : st.weights <;> simp [hw]
 
@@ -328,30 +364,30 @@ theorem wre_gradient_hasDerivAt_partial (epsq epsp : ℝ) (qs ps ds : List ℝ)
 
 end deriv
 
-/-! ## defects of the unchanged tree mirrored by the model (negation witnesses) -/
+/-! ## open defect mirrored by the model (negation witness), and concrete instances of the repaired wiring -/
 
-/-- `mode takes effect` is false for the fast squared error: a fresh fast loss configured with custom
-weights `[[2,0],[0,3]]` has no cached block matrix (`_extend_weight_matrix is None`), so `value` ignores them. -/
-theorem fast_mode_takes_effect_fails :
-    (configureFast (K := Rat) (m := 2) ⟨none, none⟩
-        (mkOpt .custom (some [Mat.ofFn fun i j => if i = j then (i.val : Rat) + 2 else 0])) true []).toOption.map
-      (fun st => (st.weightMatrices.isSome, st.extW.isSome)) = some (true, false) := by
-  decide +kernel
-
-/-- …and on re-use it applies the previous configuration's weights: after `custom W₁`, `custom W₂`
-the cached blocks are `W₁`. -/
-theorem fast_reuse_stale_fails :
-    ((configureFast (K := Rat) (m := 1) ⟨none, none⟩ (mkOpt .custom (some [Mat.ofFn fun _ _ => 5])) true []).toOption.bind
-      fun st => (configureFast st (mkOpt .custom (some [Mat.ofFn fun _ _ => 7])) true []).toOption).map
-      (fun st => (st.weightMatrices.map fun l => l.map fun W => W.get 0 0,
-                  st.extW.map fun e => e.blocks.map fun W => W.get 0 0)) = some (some [7], some [5]) := by
-  decide +kernel
-
-/-- `identity` after `custom` keeps the custom weights (generic loss): `_set_weights_by_mode("identity")` is `pass`. -/
+/-- OPEN (D9d): `identity` after `custom` keeps the custom weights (generic loss):
+`_set_weights_by_mode("identity")` is `pass`. -/
 theorem identity_after_custom_fails :
-    ((configureGen (K := Rat) (m := 1) ⟨none⟩ (mkOpt .custom (some [Mat.ofFn fun _ _ => 5])) []).toOption.bind
-      fun st => (configureGen st (mkOpt .identity none) []).toOption).map
-      (fun st => st.weightMatrices.map fun l => l.map fun W => W.get 0 0) = some (some [5]) := by
+    (((configureGen (K := Rat) (m := 1) 0 ⟨none⟩ (mkOpt .custom (some [Mat.ofFn fun _ _ => 5])) []).toOption.bind
+        fun st => (configureGen 0 st (mkOpt .identity none) []).toOption).map
+      fun st => st.weightMatrices.map fun l => l.map fun W => W.get 0 0) = some (some [5]) := by
+  decide +kernel
+
+-- a fresh fast loss configured with custom weights has them in its cache; re-configuration replaces them
+example :
+    ((configureFast (K := Rat) (m := 1) 0 ⟨none, none⟩ (mkOpt .custom (some [Mat.ofFn fun _ _ => 5])) true []).toOption.bind
+      fun st => (configureFast 0 st (mkOpt .custom (some [Mat.ofFn fun _ _ => 7])) true []).toOption.map
+        fun st' => (st.extW.map fun e => e.blocks.map fun W => W.get 0 0,
+                    st'.extW.map fun e => e.blocks.map fun W => W.get 0 0)) = some (some [5], some [7]) := by
+  decide +kernel
+-- a float inverse that is asymmetric beyond atol is rejected by the setter (open finding D9e)
+example : (configureGen (K := Rat) (m := 3) (1/10000000000000) ⟨none⟩ (mkOpt .invSample none)
+    [Mat.ofFn fun i j => if i.val < j.val then 1 else 2]).toOption.isNone = true := by
+  decide +kernel
+-- three outcomes: the inverse fills the leading 2×2 block
+example : (invCovWeight (K := Rat) (m := 3) (Mat.ofFn fun i j => (i.val : Rat) * 2 + j.val + 1)).toList.map (·.toList)
+    = [[1, 2, 0], [3, 4, 0], [0, 0, 0]] := by
   decide +kernel
 
 -- non-vacuity: the hypotheses of the Taylor identity / fast-path theorems are satisfiable
